@@ -12,7 +12,11 @@ package main
 // Parser.ContinuationNeeded().
 
 import (
+	"fmt"
 	"go/token"
+	"go/types"
+	"sort"
+	"strings"
 
 	"golang.org/x/tools/go/ssa"
 )
@@ -232,4 +236,173 @@ func (c *Ctx) checkModifyResultUse(r *Report, rule string) {
 	if n == 0 {
 		r.OkWhy(rule, "eval", "no method is invoked on a result of ast.Modify outside of package ast", "", "nothing to guard")
 	}
+}
+
+// checkOperandOmittedOnlyBeforeCloser: rule C15.R7.
+//
+// An infix expression without its right operand is the open-ended slice a[n:], closed by `]`. In
+// parseInfixExpression every return that is not preceded by the store of Right lies on the true edge of a test
+// of the next token against RBRACKET. A wider test ("the next token cannot start an expression") is also true
+// of the end-of-line token of line mode, so a line ending in `:` is accepted as it is instead of asking for
+// the rest (r = 0: is a prefix of r = 0:10).
+func (c *Ctx) checkOperandOmittedOnlyBeforeCloser(r *Report, rule string) {
+	fn := c.SSAFn(c.Fn("parser", "Parser.parseInfixExpression"))
+	infixT := c.TypeNamed("ast", "InfixExpression")
+	rbr, _ := constInt64(c.Const("token", "RBRACKET"))
+	isRightStore := func(in ssa.Instruction) bool {
+		st, ok := in.(*ssa.Store)
+		return ok && isFieldAddrOf(st.Addr, infixT, "Right")
+	}
+	n := 0
+	eachInstr(fn, func(in ssa.Instruction) {
+		ret, ok := in.(*ssa.Return)
+		if !ok {
+			return
+		}
+		// is the store of Right on every path to this return?
+		if mustPassFromEntryTo(fn, isRightStore, ret) {
+			return
+		}
+		n++
+		closer := false
+		var seen []string
+		for _, cc := range controlling(ret.Block()) {
+			seen = append(seen, cc.Cond.String())
+			bin, ok := cc.Cond.(*ssa.BinOp)
+			if !ok || bin.Op != token.EQL || cc.Edge != 0 {
+				continue
+			}
+			if k, ok := constInt(bin.Y); ok && k == rbr {
+				closer = true
+			}
+		}
+		desc := "the right operand is left out only before `]`"
+		if n > 1 {
+			desc += " #" + itoa(n)
+		}
+		r.Check(closer, rule, ssaFuncName(fn), desc, c.Pos(instrPos(ret)),
+			fmt.Sprintf("parseInfixExpression returns an expression without a right operand where the next token was not tested against `]` (conditions: %v): the end-of-line token of line mode passes such a test too, so a line that ends right after the operator is accepted instead of asking for the rest of the expression", seen))
+	})
+	if n == 0 {
+		r.OkWhy(rule, ssaFuncName(fn), "the right operand is always parsed", c.Pos(fn.Pos()), "no return without the store of Right")
+	}
+}
+
+// mustPassFromEntryTo: every path from the entry of fn to `to` executes an instruction satisfying sat.
+func mustPassFromEntryTo(fn *ssa.Function, sat func(ssa.Instruction) bool, to ssa.Instruction) bool {
+	seen := map[*ssa.BasicBlock]bool{}
+	var walk func(b *ssa.BasicBlock) bool // true: reached `to` without passing sat
+	walk = func(b *ssa.BasicBlock) bool {
+		if seen[b] {
+			return false
+		}
+		seen[b] = true
+		for _, in := range b.Instrs {
+			if in == to {
+				return true
+			}
+			if sat(in) {
+				return false
+			}
+		}
+		for _, s := range b.Succs {
+			if walk(s) {
+				return true
+			}
+		}
+		return false
+	}
+	return !walk(fn.Blocks[0])
+}
+
+// checkSiblingWhitespaceGuards: rule C03.R8.
+//
+// parseExpression stops before `(` and before `[` when the lexer saw whitespace in front of them (3\n(4) is not
+// a call, a [1] not an index): the two guards are siblings and what the printer writes between two statements
+// has to trip both. Whatever accompanies the test of the token against LPAREN accompanies the test against
+// LBRACKET: the same set of predicates (methods called, fields read). One adapted without the other means the
+// printer's own output is read differently for the two (a line starting with `[` after an expression).
+func (c *Ctx) checkSiblingWhitespaceGuards(r *Report, rule string) {
+	fn := c.SSAFn(c.Fn("parser", "Parser.parseExpression"))
+	lp, _ := constInt64(c.Const("token", "LPAREN"))
+	lb, _ := constInt64(c.Const("token", "LBRACKET"))
+	// the predicates that decide, together with `t == K`, the early return of the guard
+	guard := func(k int64) (map[string]bool, bool) {
+		preds := map[string]bool{}
+		found := false
+		for _, b := range fn.Blocks {
+			ifi, ok := b.Instrs[len(b.Instrs)-1].(*ssa.If)
+			if !ok {
+				continue
+			}
+			bin, ok := ifi.Cond.(*ssa.BinOp)
+			if !ok || bin.Op != token.EQL {
+				continue
+			}
+			if kk, ok := constInt(bin.Y); !ok || kk != k {
+				continue
+			}
+			found = true
+			// follow the true edge through the tests up to the return / the rest of the loop
+			seen := map[*ssa.BasicBlock]bool{}
+			var walk func(x *ssa.BasicBlock, depth int)
+			walk = func(x *ssa.BasicBlock, depth int) {
+				if seen[x] || depth > 4 {
+					return
+				}
+				seen[x] = true
+				for _, in := range x.Instrs {
+					switch y := in.(type) {
+					case *ssa.Call:
+						if obj := calleeObj(y); obj != nil && isModulePkg(obj.Pkg()) && obj.Type().(*types.Signature).Results().Len() == 1 {
+							if bt, ok := obj.Type().(*types.Signature).Results().At(0).Type().Underlying().(*types.Basic); ok && bt.Kind() == types.Bool {
+								preds[obj.Name()+"()"] = true
+							}
+						}
+					case *ssa.UnOp:
+						if fa, ok := y.X.(*ssa.FieldAddr); ok {
+							if bt, ok := y.Type().Underlying().(*types.Basic); ok && bt.Kind() == types.Bool {
+								if st := namedOrStruct(fa.X.Type()); st != nil {
+									preds["."+st.Field(fa.Field).Name()] = true
+								}
+							}
+						}
+					}
+				}
+				if xi, ok := x.Instrs[len(x.Instrs)-1].(*ssa.If); ok {
+					// only condition chains of this guard: stop at the next token test
+					if xb, ok := xi.Cond.(*ssa.BinOp); ok && xb.Op == token.EQL {
+						if _, isK := constInt(xb.Y); isK && x != b {
+							return
+						}
+					}
+					for _, s := range x.Succs {
+						walk(s, depth+1)
+					}
+				}
+			}
+			walk(b.Succs[0], 0)
+		}
+		return preds, found
+	}
+	pp, ok1 := guard(lp)
+	pb, ok2 := guard(lb)
+	if !ok1 || !ok2 {
+		r.Undecided("%s: the `(` / `[` guards of parseExpression were not found", rule)
+		return
+	}
+	var diff []string
+	for k := range pp {
+		if !pb[k] {
+			diff = append(diff, k+" only for `(`")
+		}
+	}
+	for k := range pb {
+		if !pp[k] {
+			diff = append(diff, k+" only for `[`")
+		}
+	}
+	sort.Strings(diff)
+	r.Check(len(diff) == 0, rule, ssaFuncName(fn), "the `(` and `[` guards test the same whitespace conditions", c.Pos(fn.Pos()),
+		"the guard that keeps `(` from being a call and the one that keeps `[` from being an index after whitespace look at different things ("+strings.Join(diff, "; ")+"): what separates two statements in the printer's output trips one and not the other, so a formatted line that starts with `[` (or `(`) is glued to the previous expression on the next pass")
 }
